@@ -3,7 +3,8 @@ import CentrifugeVerif.Model.Bracket
 /-!
 Driver for C10.  One scenario per line.
 
-* `run ss=<b> pos=<b> bat=<b> rwq=<b> [fix=<b>] | <hlabel>…` — replays harness-level labels through
+* `run ss=<b> pos=<b> bat=<b> rwq=<b> [fix=0] | <hlabel>…` (`fix=0` = the code before commit 9c975f8e: no
+  `flagSubscribed` check on the offset-0 publication path; default = the current code) — replays harness-level labels through
   the model (`Bracket.next`), printing `frames=<tok,…> live=<actor@gate,…>` (or `disabled@<i>`).
 * `gen ss=… pos=… bat=… rwq=… | <n>…` — builds a schedule: at every step the numbers pick one of
   the harness-level labels that are enabled in the model (so the real goroutines are never sent
@@ -173,7 +174,7 @@ def render (cfg : Cfg) (h : HState) : String :=
 def parseCfg (ws : List String) : Cfg :=
   let b (k : String) : Bool := kv ws k == some "1"
   { serverSide := b "ss", positioned := b "pos", batching := b "bat", rwq := b "rwq",
-    offset0Checked := b "fix", serial := b "serial", pubSerial := true }
+    offset0Checked := kv ws "fix" != some "0", serial := b "serial", pubSerial := true }
 
 def runLabels (cfg : Cfg) : HState → List String → Nat → List String → Except Nat (HState × List String)
   | h, [], _, tr => .ok (h, tr.reverse)
